@@ -10,7 +10,8 @@ LEVEL_TEXT = ("Static analysis of the type-checked MIR of /repo: the next packet
               "in a Package::dump impl is dominated by record_frame on the same writer, and the packet writers' record_frame "
               "marks the guard on every path - so a packet carrying at least one frame always consumes its number; the guard "
               "has no Drop or Clone impl. Necessary structural conditions on all paths.")
-NOT_DECIDED = ["PacketNumber::encode/decode arithmetic (RFC 9000 A.2/A.3): truncation width and reconstruction are value-level",
+NOT_DECIDED = ["PacketNumber::decode reconstruction arithmetic (RFC 9000 A.3) and that the sender's largest_acked is the one the "
+               "receiver's window is centred on: value-level (only the A.2 width table of encode is decided, R4)",
                "interleaving across paths beyond mutual exclusion by the journal mutex"]
 
 SJ = "qrecovery::journal::sent"
@@ -25,6 +26,8 @@ def run(ctx):
                    "nframes == 0); every put_frame in a Package::dump is dominated by record_frame; PacketWriter::record_frame "
                    "marks the guard on every path")
     ctx.rule("R3", "abandoned assembly consumes nothing: NewPacketGuard has no Drop impl")
+    ctx.rule("R4", "truncation width table (RFC 9000 A.2): the guard under which PacketNumber::encode picks a w-bit encoding "
+                   "bounds the distance d = pn - largest_acked by 2*d < 2^w (affine guard extraction + constant arithmetic)")
 
     # ---------------------------------------------------------------- R1
     muts = []
@@ -130,5 +133,52 @@ def run(ctx):
             ok = bool(mb) and b.must_pass(b.return_blocks(), mb)
             ctx.ob("R2", "%s|marks the guard on every path" % b.short, ok, b.where(),
                    "every path to return passes record_frame/record_trivial on the clerk: %s" % ok)
+    # ---------------------------------------------------------------- R4
+    enc = ctx.anchor("R4", "qbase::packet::number::PacketNumber::encode")
+    if enc:
+        arms = agg_sites(enc, r"packet::number::PacketNumber$")
+        ctx.floor("R4", "PacketNumber variants constructed by encode", len(arms), 3)
+        for (i, j, rv, line) in arms:
+            var = rv[1]["variant"]
+            w = {"U8": 8, "U16": 16, "U24": 24, "U32": 32}.get(var)
+            if w is None:
+                continue
+            g = guard_cmp(enc, i)
+            ok, why = False, "no guarding comparison recognised"
+            if g is not None:
+                (sw, op, x, y) = g
+                lx, ly = lin(enc, x), lin(enc, y)
+                # normalise to  X (Lt|Le) C  with C constant
+                if lx is not None and ly is not None and len(lx) == 1 and lx[0][0] == 0 and not (len(ly) == 1 and ly[0][0] == 0):
+                    lx, ly, op = ly, lx, {"Gt": "Lt", "Ge": "Le", "Lt": "Gt", "Le": "Ge"}.get(op, op)
+                if lx is None or ly is None or len(ly) != 1 or ly[0][0] != 0 or op not in ("Lt", "Le"):
+                    why = "guard is not of the form  affine(d) < constant  (relation %s, forms %s / %s)" % (op, lx, ly)
+                else:
+                    C = ly[0][2]
+                    feasible = True
+                    bounds = []
+                    bad_base = []
+                    for (k, base, c) in lx:
+                        if k == 0:
+                            if not (c < C if op == "Lt" else c <= C):
+                                feasible = False   # the arm cannot be taken at all
+                        elif k > 0:
+                            if base != "diff(arg:1,arg:2)":
+                                bad_base.append(base)
+                            dmax = (-(-(C - c) // k) - 1) if op == "Lt" else ((C - c) // k)
+                            bounds.append(dmax)
+                    if not feasible:
+                        ok, why = True, "arm unreachable (constant member of the guard exceeds the threshold): vacuous"
+                    elif bad_base:
+                        why = "the bounded quantity is %s, not pn - largest_acked" % bad_base
+                    elif not bounds:
+                        why = "the guard does not bound pn - largest_acked"
+                    else:
+                        dmax = min(bounds)
+                        ok = 2 * dmax < (1 << w)
+                        why = "guard admits d <= %d; 2*d < 2^%d: %s" % (dmax, w, ok)
+            ctx.ob("R4", "%s|%s chosen only when 2*(pn - largest_acked) < 2^%d" % (enc.short, var, w), ok, enc.where(line),
+                   "%s — a narrower encoding than the window needs makes the receiver reconstruct a different packet number "
+                   "(wrong nonce: the packet is undecryptable) once that many packets are unacknowledged" % why)
     ctx.assume("IndexDeque::largest() == offset + len (value-level)")
     ctx.assume("the journal Mutex serialises assemblies of one space (std::sync::Mutex contract)")
